@@ -177,7 +177,7 @@ impl RandomProp for Foreign {
         }
     }
     fn cases(env: &Env) -> u64 {
-        env.n(14 * 2500, 14 * 100_000)
+        env.n(14 * 10_000, 14 * 300_000)
     }
 }
 
@@ -209,7 +209,7 @@ impl RandomProp for ForeignLarge {
             .boxed()
     }
     fn cases(env: &Env) -> u64 {
-        env.n(14 * 6, 14 * 300)
+        env.n(14 * 20, 14 * 600)
     }
 }
 
@@ -362,6 +362,6 @@ impl RandomProp for IndexOnly {
             .boxed()
     }
     fn cases(env: &Env) -> u64 {
-        env.n(13 * 2500, 13 * 80_000)
+        env.n(13 * 10_000, 13 * 300_000)
     }
 }
